@@ -404,15 +404,6 @@ func hasTies(s Schema, rows []Row) bool {
 // classify names the shape of the input (stored rows + statement) that explains a disagreement with the reference.
 func classify(s Schema, pre []Row, st Stmt, aspect string) string {
 	cs := candidates(s, pre, st)
-	if len(s.PK) >= 2 {
-		for i := range cs {
-			for j := i + 1; j < len(cs); j++ {
-				if !s.keyEq(cs[i], cs[j]) && keyString(s, cs[i]) == keyString(s, cs[j]) {
-					return "composite-key-string-collision"
-				}
-			}
-		}
-	}
 	// two candidate rows that differ only by letter case in a case-insensitive column (keys, or an UPDATE that only
 	// changes the case)
 	for i := range cs {
@@ -483,6 +474,16 @@ func classify(s Schema, pre []Row, st Stmt, aspect string) string {
 			for yi, y := range cs {
 				if yi != xi && yi >= len(pre) && byteUniqEq(u, x, y) {
 					return "unique-value-freed-by-pending-delete"
+				}
+			}
+		}
+	}
+	// (repaired by commit 1b57e874c; checked last)
+	if len(s.PK) >= 2 {
+		for i := range cs {
+			for j := i + 1; j < len(cs); j++ {
+				if !s.keyEq(cs[i], cs[j]) && keyString(s, cs[i]) == keyString(s, cs[j]) {
+					return "composite-key-string-collision"
 				}
 			}
 		}
@@ -590,13 +591,6 @@ func run(c *lib.Ctx, cs caseT) {
 				}
 				cause := classify(s, pre, st, aspect)
 				fails = append(fails, pf{cause + "/" + st.Kind, aspect + ": " + what})
-				if cause == "composite-key-string-collision" && aspect == "contents" {
-					// the edit accumulator mixed up rows: the table's index storage (not visible through SELECT *, not
-					// modelled) no longer matches its rows, later index scans misbehave.  The defect is reported here;
-					// the rest of the history would only show its after-effects.
-					c.Count("history_cut_after_key_string_collision_mixed_up_rows")
-					break
-				}
 			}
 		}
 		pre = post
